@@ -34,11 +34,15 @@ DESIGN_REF = "§5 C13"
 
 PROFILES = {
     "manual": dict(max_connections=1, auto_credit=False, init_window=20000, ups=[0, 10, 5000, 70000, 200000], downs=[0, 10, 70000],
-                   p_winsettings=0.3, allow_window_shrink=False, padding=True, segment="coarse", init_max_streams=10),
+                   p_winsettings=0.3, allow_window_shrink=False, padding=True, segment="coarse", init_max_streams=10, end_with_data=True),
     "shrink": dict(max_connections=1, auto_credit=False, ups=[0, 10, 5000, 70000], downs=[0, 10], p_winsettings=0.4, allow_window_shrink=True,
                    segment="coarse", init_max_streams=10),
     "tiny": dict(max_connections=1, auto_credit=False, init_window=100, ups=[0, 1, 99, 100, 101, 1000], downs=[0, 10, 3000], padding=True,
-                 segment="fine", init_max_streams=10, p_winsettings=0.1, window_values=[1, 100, 1000], allow_window_shrink=True),
+                 segment="fine", init_max_streams=10, p_winsettings=0.1, window_values=[1, 100, 1000], allow_window_shrink=True,
+                 end_with_data=True),
+    # nothing but DATA and WINDOW_UPDATE on the wire: an upload must keep moving on the credit it is given, with no other frame to wake it
+    "quiet": dict(max_connections=1, auto_credit=False, init_window=20000, ups=[70000, 200000], downs=[0, 10], p_winsettings=0.0, p_ping=0.0,
+                  p_settings=0.0, allow_window_shrink=False, segment="coarse", init_max_streams=10, callers=2, end_with_data=True),
 }
 WANT = ["C13:", "C12:wedged", "C12:undisturbed-request-failed", "C12:server-protocol-error"]
 
@@ -81,6 +85,7 @@ def run(ctx, driver):
     h2x.explore(ctx, rec, ID, PROFILES["manual"], 50, 1200, WANT)
     h2x.explore(ctx, rec, ID, PROFILES["shrink"], 50, 1200, WANT)
     h2x.explore(ctx, rec, ID, PROFILES["tiny"], 40, 1000, WANT)
+    h2x.explore(ctx, rec, ID, PROFILES["quiet"], 40, 1000, WANT)
     # ---- downloads beyond the client's credit ---------------------------------------------------------------------------------
     runs = [dict(total=20_000_000), dict(total=70_000, frame=1, pad=255)]
     if not ctx.quick:
